@@ -66,17 +66,40 @@ deriving Inhabited
 def findOutput (ms : List ImplMember) : Option Ty :=
   ms.findSome? fun | .output t => some t | _ => none
 
-/-- `build_by_item_impl` up to (not including) `dump` -/
-def buildFwd (attr : Args) (i : ItemImpl) : R FwdImpl := do
-  let (tg, segs) ← (match i.trait_ with | some t => pure t | none => bail : R (Bool × List Seg))
-  let _ := tg
+/-- the trait path's last segment -/
+def ItemImpl.lastSeg (i : ItemImpl) : Option Seg :=
+  match i.trait_ with
+  | some (_, segs) => segs.getLast?
+  | none => none
+
+def ItemImpl.rhsOrig (i : ItemImpl) : Ty :=
+  match i.lastSeg with
+  | some s => toRhs s i.selfTy
+  | none => i.selfTy
+
+/-- the binary forms to generate: all four except the user's own, in the order TT, T&, &T, && -/
+def binForms (thisIsRef rhsIsRef : Bool) : List FwdItem :=
+  ([(false, false), (false, true), (true, false), (true, true)].filter
+    (fun (l, r) => !(l == thisIsRef && r == rhsIsRef))).map fun (l, r) => .binary l r
+
+/-- what to generate from `impl Op<Rhs> for This` -/
+def fwdItemsBinary (makeBinary makeAssign thisIsRef rhsIsRef : Bool) (rhs rhsOrig : Ty) : List FwdItem :=
+  (if makeBinary then binForms thisIsRef rhsIsRef else []) ++
+  (if makeAssign then
+     (if makeBinary then [.assign rhs true, .assign (refType rhs) true] else [.assign rhsOrig thisIsRef])
+   else [])
+
+structure FwdPlan where
+  op : BinOp
+  form : OpForm
+  output : Option Ty
+  items : List FwdItem
+
+/-- the checks and decisions of `build_by_item_impl` -/
+def fwdPlan (attr : Args) (i : ItemImpl) : R FwdPlan := do
+  if i.trait_.isNone then bail
   if i.neg then bail
-  let s ← (match segs.getLast? with | some s => pure s | none => bail : R Seg)
-  let thisOrig := i.selfTy
-  let (this, thisIsRef) := toRefElem thisOrig
-  let rhsOrig := toRhs s thisOrig
-  let (rhs, rhsIsRef) := toRefElem rhsOrig
-  let g := i.generics.expandSelf thisOrig
+  let s ← (match i.lastSeg with | some s => pure s | none => bail : R Seg)
   let sIdent := match s with | .mk n _ => n
   let (op, form) ← (match opFromStr sIdent with | some x => pure x | none => bail : R (BinOp × OpForm))
   -- `Args::from_attr_args`: a list of bare identifiers and `dump`
@@ -88,25 +111,29 @@ def buildFwd (attr : Args) (i : ItemImpl) : R FwdImpl := do
     | none => bail
   let makeBinary := targets.contains .binary
   let makeAssign := targets.contains .assign
+  let thisIsRef := (toRefElem i.selfTy).2
+  let (rhs, rhsIsRef) := toRefElem i.rhsOrig
   match form with
   | .binary =>
-    let output ← (match findOutput i.members with | some t => pure (Ty.expandSelf thisOrig t) | none => bail : R Ty)
-    let bins : List FwdItem :=
-      if makeBinary then
-        ([(false, false), (false, true), (true, false), (true, true)].filter
-          (fun (l, r) => !(l == thisIsRef && r == rhsIsRef))).map fun (l, r) => .binary l r
-      else []
-    let asg : List FwdItem :=
-      if makeAssign then
-        if makeBinary then [.assign rhs true, .assign (refType rhs) true]
-        else [.assign rhsOrig thisIsRef]
-      else []
-    pure { op, baseForm := form, generics := g, thisOrig, rhsOrig, this, thisIsRef, rhs, rhsIsRef,
-           output := some output, items := bins ++ asg }
+    match findOutput i.members with
+    | none => bail
+    | some t =>
+      pure { op, form, output := some (Ty.expandSelf i.selfTy t),
+             items := fwdItemsBinary makeBinary makeAssign thisIsRef rhsIsRef rhs i.rhsOrig }
   | .assign =>
     if makeAssign then bail
-    pure { op, baseForm := form, generics := g, thisOrig, rhsOrig, this, thisIsRef, rhs, rhsIsRef,
-           output := none, items := if makeBinary then [.binFromAssign] else [] }
+    else pure { op, form, output := none, items := if makeBinary then [.binFromAssign] else [] }
+
+/-- `build_by_item_impl` up to (not including) `dump` -/
+def buildFwd (attr : Args) (i : ItemImpl) : R FwdImpl :=
+  match fwdPlan attr i with
+  | .error _ => bail
+  | .ok p =>
+    pure { op := p.op, baseForm := p.form, generics := i.generics.expandSelf i.selfTy,
+           thisOrig := i.selfTy, rhsOrig := i.rhsOrig,
+           this := (toRefElem i.selfTy).1, thisIsRef := (toRefElem i.selfTy).2,
+           rhs := (toRefElem i.rhsOrig).1, rhsIsRef := (toRefElem i.rhsOrig).2,
+           output := p.output, items := p.items }
 
 def FwdImpl.renderItem (f : FwdImpl) : FwdItem → Toks
   | .binary implL implR =>
